@@ -27,6 +27,7 @@ func init() {
 			{"C06.sync-reaches-fsync", ruleC06SyncReaches, ""},
 			{"C06.seal-sync", ruleC06SealSync, ""},
 			{"C06.unlink-after-durable", ruleC06Unlink, ""},
+			{"C06.errs", ruleErrs, ""},
 		},
 		Explanation: "Under the stated power-loss model, decides three structural necessary conditions over all paths: (sync-reaches-fsync) DB.Sync, and Put/Delete in sync-after-every-write mode, cannot return success without File.Sync on the current segment, except through the test 'current segment is sealed'; OS-backed File implementations resolve Sync to (*os.File).Sync; (seal-sync) a segment is marked full only after a successful File.Sync of that same segment, so nothing is left unflushed when the log moves on; (unlink-after-durable) in compaction every path from a record copy to FileSystem.Remove passes File.Sync of the current segment. NOT decided: the contents of each power-loss image; that fsync honours its contract.",
 		Assumptions: commonAssumptions,
@@ -35,6 +36,7 @@ func init() {
 		Rules: []ruleDef{
 			{"C09.sync-before-close", ruleC09SyncBeforeClose, ""},
 			{"C09.commit-last", ruleCloseOrder, ""},
+			{"C09.errs", ruleErrs, ""},
 		},
 		Explanation: "Decides, on the call-string-cloned interprocedural graph of DB.Close: (sync-before-close) every fs.File.Close of a written file that lies on a success path of DB.Close is preceded on every path by File.Sync on the same file (same access path through the call string) with no write in between; (commit-last) writeMeta, datalog.close, index.close precede LockFile.Unlock on every path, every success return passes Unlock, nothing touches the file system after Unlock, only DB.Close calls Unlock, and datalog.close skips only nil segments. NOT decided: that every power-loss image after Close reopens to the closed contents.",
 		Assumptions: commonAssumptions,
@@ -55,6 +57,11 @@ func init() {
 		Rules: []ruleDef{
 			{"C04.size-mirror", ruleC04SizeMirror, ""},
 			{"C04.unlock-owner", ruleCloseOrder, ""},
+			{"C04.open-order", ruleOpenOrder, ""},
+			{"C04.tail-handling", ruleC08Gates, ""},
+			{"C04.segment-end", ruleC03CompactComplete, ""},
+			{"C04.seal-after-replay", ruleC04SealAfterReplay, ""},
+			{"C04.sequence-monotonic", ruleC03SequenceMonotonic, ""},
 		},
 		Explanation: "Decides: (size-mirror) every length-changing call (Write, WriteAt, Truncate) made on the fs.File embedded in a pogreb.file assigns file.size of the same file on each success path (or is the reviewed in-place bucket rewrite / the function-local gob writer), so the in-memory append position cannot diverge from the file length after recovery truncates a torn tail; (unlock-owner) only a completed DB.Close releases the lock file, after all other steps, so an interrupted recovery is redone. NOT decided: contents along chains of crash images; idempotence of recovery as such.",
 		Assumptions: commonAssumptions,
@@ -62,6 +69,7 @@ func init() {
 	register("C19", &propDef{
 		Rules: []ruleDef{
 			{"C19.alloc-bound", ruleC19AllocBound, ""},
+			{"C19.tail-handling", ruleC08Gates, ""},
 		},
 		Explanation: "Decides with a forward value-flow (taint) analysis over every function reachable from recovery and segment iteration: no make/Grow/CopyN is sized by a value decoded from file bytes (binary.LittleEndian.UintN and arithmetic on it) unless the allocation is control dependent on a comparison 'tainted <= untainted bound' (the file length or a constant). NOT decided: total work/time of recovery; allocations inside encoding/gob (metadata is discarded by recovery).",
 		Assumptions: commonAssumptions,
@@ -132,6 +140,8 @@ func init() {
 			{"C03.older-first", ruleC03OlderFirst, ""},
 			{"C03.sequence-monotonic", ruleC03SequenceMonotonic, ""},
 			{"C03.write-ahead", ruleC03WriteAhead, ""},
+			{"C03.tail-handling", ruleC08Gates, ""},
+			{"C03.size-mirror", ruleC04SizeMirror, ""},
 		},
 		Explanation: "Decides the structural crash protocol over all paths: the lock file brackets every mutation of a session (taken first in Open, released last and only by a completed Close); on the recovery branch the non-segment files are moved aside before index and log are opened, recovery replays segments in ascending sequence order, sequence ids only grow; a record reaches the log in one WriteAt of the whole encoded record; Put appends to the log before touching the index and Delete writes the delete record inside the index removal; compaction unlinks a source only after a clean end of segment, repoints a slot only after the copy was written, and drops delete records only together with all older segments. NOT decided: the contents recovered from each crash image; sector-tearing atomicity (relies on the checksum, C08).",
 		Assumptions: commonAssumptions,
